@@ -36,6 +36,8 @@ def build():
 
 
 def pre(repo):
+    import poll_extract
+    poll_extract.check(repo)  # idle kernel threads keep polling (a fact no run of the harness shows)
     sleep_extract.write_gen(repo)
 
 
@@ -192,6 +194,24 @@ def gen_tree(rng, tier):
     return cases
 
 
+def _guard_rt_part():
+    """sleeps next to every other way of parking (mutex, semaphore, join, fd waits, refused fd
+    waits and closes): C01's mixed programs followed by the runtime model, re-run here - a waiter
+    record left behind by another primitive's error path wakes a sleeper early"""
+    def gen(rng, tier):
+        import importlib
+        m = importlib.import_module("specs_c01")
+        cs = m.PART_RT["gen"](rng, tier)
+        cs = [c for c in cs if "s" in c["args"][1].replace("|", ",").split(",")]
+        rng.shuffle(cs)
+        return cs[: (2000 if tier == "thorough" else 200)]
+
+    def build():
+        import importlib
+        return importlib.import_module("specs_c01").PART_RT["build"]()
+    return {"name": "guard-rt", "harness": "rt", "model": "Rt", "runtime": True, "gen": gen, "build": build}
+
+
 SPEC = {
     "C09": {
         "pre": pre,
@@ -202,6 +222,7 @@ SPEC = {
             {"name": "sleeptree", "harness": "sleep", "model": "Sleep", "runtime": True, "build": build,
              "gen": gen_tree,
              "nontrivial": lambda s: s["hist"].get("note rem", 0) >= 1},
+            _guard_rt_part(),
         ],
         "rule": "cases = (kernel threads 1-3, clock script of the main fiber: advance virtual time by N us / poll / yield / wait-for-fiber, fiber scripts: fiber_sleep / usleep / nanosleep / sleep with 0, sub-tick, non-multiple, exact-multiple and seconds+microseconds durations, busy loops, yields; scheduler kind+seed) from VERIF_SEED, plus directed families for unread expirations, 32-bit overflow and equal-deadline chains under freeze schedules; sleeptree: random insert/remove sequences on the real tree functions; distinct = different (args, sha1 of access sequence); non-trivial = at least two sleeps were woken / at least one removal returned a node",
         "trusted_base": [
